@@ -36,9 +36,12 @@ Section RecordParse.
   Variable sem : colsem.
 
   (* what a column object holds besides key and index: its class and value,
-     and its own validation_errors list *)
+     its own validation_errors list, and the object's identity (python's
+     `is`): a record keeps a column both in its name map and in its slot list,
+     the model keeps two copies, and `poid` says which copies are one object.
+     from_line gives the column built for position i the identity i. *)
   Inductive pvalue := PPlain (s : str) | PTyped (c : C) (w : W).
-  Record payload := { pv : pvalue; perrs : list verr }.
+  Record payload := { pv : pvalue; perrs : list verr; poid : Z }.
   Notation column := (col payload).
   Notation scheme := (scheme cls).
 
@@ -106,7 +109,8 @@ Section RecordParse.
     e0 ++ e1 ++ e2 ++ e3.
 
   Definition with_perrs (c : column) (errs : list verr) : column :=
-    {| ckey := ckey c; cidx := cidx c; cval := {| pv := pv (cval c); perrs := errs |} |}.
+    {| ckey := ckey c; cidx := cidx c;
+       cval := {| pv := pv (cval c); perrs := errs; poid := poid (cval c) |} |}.
 
   (* ---------- MafRecord with its bookkeeping ---------- *)
   Record mrec := {
@@ -138,22 +142,15 @@ Section RecordParse.
 
   (* the self-consistency block of validate (run when no slot is None; repaired
      code: problems are validation errors, not assertions).
-     `self.__columns_dict.get(column.key) is not column`: python compares object
-     identities; the model compares name and index, which decides the same for
-     a record whose stored column objects were modified in place (the only way
-     to get out of sync through the public API - property C15). *)
+     `self.__columns_dict.get(column.key) is not column` compares object
+     identities: the column the name map holds under the slot column's (current)
+     key must be that very object *)
   Definition slot_in_sync (d : list (str * column)) (o : option column) : bool :=
     match o with
     | None => true
     | Some c =>
         match assoc (ckey c) d with
-        | Some c' =>
-            str_eqb (ckey c') (ckey c)
-            && match cidx c, cidx c' with
-               | Some i, Some j => i =? j
-               | None, None => true
-               | _, _ => false
-               end
+        | Some c' => poid (cval c') =? poid (cval c)
         | None => false
         end
     end.
@@ -215,7 +212,8 @@ Section RecordParse.
         | None =>                                     (* except Exception as error *)
             from_line_loop (i + 1) rest sch ln r (errs ++ [mkerr T_RECORD_INVALID_COLUMN_VALUE ln])
         | Some p =>
-            let c0 : column := {| ckey := name; cidx := Some i; cval := {| pv := p; perrs := [] |} |} in
+            let c0 : column := {| ckey := name; cidx := Some i;
+                                  cval := {| pv := p; perrs := []; poid := i |} |} in
             let ce := column_validate c0 true sch ln in
             match ce with
             | [] =>
